@@ -68,10 +68,15 @@ func drain[T any](ch chan T) (stop func()) {
 
 // NewNode assembles the handlers of one flavour in the order its Start function registers them.
 func NewNode(ctx context.Context, w *World, fl string) (*Node, error) {
-	if fl == "core" {
+	return NewNodeMode(ctx, w, fl, false)
+}
+
+// NewNodeMode: publishFails = the "send" delivery mode (see GossipCrash.tla).
+func NewNodeMode(ctx context.Context, w *World, fl string, publishFails bool) (*Node, error) {
+	if fl == "core" && !publishFails {
 		return NewCoreNode(ctx, w)
 	}
-	n, err := newNodeBase(ctx, fl)
+	n, err := newNodeBaseMode(ctx, fl, publishFails)
 	if err != nil {
 		return nil, err
 	}
@@ -85,6 +90,8 @@ func NewNode(ctx context.Context, w *World, fl string) (*Node, error) {
 	}
 	node := &configuration.EthnodeConfig{PrivateKey: &keys.ECDSAPrivate{Key: w.KeyperKeys[ReceiverIdx]}}
 	switch fl {
+	case "core":
+		n.add(core()...)
 	case "gnosis": // keyperimpl/gnosis/keyper.go Start + keyper.KeyperCore.Start through the middleware
 		sh, ks := gnosis.VerifGnosisSlotHandlers(n.Pool)
 		n.Msg.AddMessageHandler(sh)
